@@ -153,6 +153,13 @@ VecOpT(x, y, o) ==
 (***************************************************************************)
 RECURSIVE Leaves(_)
 Leaves(x) == IF IsLeaf(x) THEN << x >> ELSE Cat([k \in 1..Len(x.r) |-> Leaves(x.r[k])])
+\* "return if the array is contiguous in memory": every one-dimensional sub-array that has elements starts where the
+\* previous one (in row-major order) ends.  `off' is the observed start of a sub-array, in elements from the first
+\* element of the array -- so contiguity is a property of every state, whatever happened to inner sub-arrays
+\* (resized through operator[], re-allocated, shrunk in place, copied) before.
+ContigObs(x) ==
+  LET ls == SelectSeq(Leaves(x), LAMBDA l : NLen(l) > 0) IN
+  \A q \in 1..(Len(ls) - 1) : ls[q + 1].off = ls[q].off + NLen(ls[q])
 \* write the values of the bound leaves into the block / read them from the block
 PushBlk(blk, x) ==
   LET ls == Leaves(x) IN
@@ -252,10 +259,19 @@ NApply(D, st, op) ==
          NRS([st EXCEPT !.s[t] = VecOpT(Unbound(X), TempT(op.S[1], 1), SymOf(op.a))])
     [] k = "NMemSet" -> NR([st EXCEPT !.blk[op.a] = op.b, !.s[1] = PullBlk(st.s[1], [st.blk EXCEPT ![op.a] = op.b])])
     [] k = "NContig" -> NRV(st, << >>)
+    \* the operations that take the flat path over the block when is_contiguous(): judged by the row-major contents
+    [] k = "NCopyTo" -> NRV(st, Flat(X))                                \* copy_to(array, iterator)
+    [] k = "NWriteData" -> NRV(st, Flat(X))                             \* write_data(stream, array), bytes read back
+    [] k \in {"NFillFrom", "NReadData"} -> NR(WithTree(st, t, IotaT(X, op.a)))   \* fill_from / read_data of a, a+1, ...
+    [] k = "NFullPtr" ->    \* get_const_full_data_ptr(): "If is_contiguous() is false, calls error()"
+         IF ContigObs(X) THEN NRV(st, Flat(X)) ELSE NE(st)
+    [] k = "NFullPtrW" ->   \* get_full_data_ptr(), a, a+1, ... written through the pointer, release
+         IF ContigObs(X) THEN NR(WithTree(st, t, IotaT(X, op.a))) ELSE NE(st)
     [] k = "NNop" -> NR(st)
 
 NKinds == {"NDefault", "NConstruct", "NView", "NCopy", "NAssign", "NMove", "NSwap", "NRecycle", "NResize", "NGrow", "NRowResize",
-           "NFill", "NIotaAll", "NIterAll", "NSetAt", "NGetAt", "NSet", "NSapyb", "NXapyb", "NMemSet", "NContig", "NNop"}
+           "NFill", "NIotaAll", "NIterAll", "NSetAt", "NGetAt", "NSet", "NSapyb", "NXapyb", "NMemSet", "NContig", "NNop",
+           "NCopyTo", "NWriteData", "NFillFrom", "NReadData", "NFullPtr", "NFullPtrW"}
           \cup NVecOps \cup NScalOps \cup NMultiKinds
 
 RECURSIVE CellsZero(_)
@@ -271,6 +287,7 @@ NEnabled(D, st, op) ==
   /\ op.k = "NSet" => HasElem(X, op.c)
   /\ op.k = "NRowResize" => HasLeaf(X, op.c)
   /\ op.k = "NMemSet" => (op.a >= 1 /\ op.a <= Len(st.blk))
+  /\ op.k \in {"NCopyTo", "NWriteData", "NFillFrom", "NReadData", "NFullPtr", "NFullPtrW"} => SizeAll(X) > 0
   /\ op.k \in {"NSetAt", "NGetAt"} => Len(op.c) = D
   /\ op.k \in NMultiKinds => Len(op.S) = (CASE op.k = "NXapybM" -> 4 [] op.k = "NXapybSM" -> 2 [] op.k = "NSapybM" -> 3 [] OTHER -> 1)
   /\ op.k \in {"NVOpM", "NBOpM"} => op.a \in 0..3
@@ -297,6 +314,7 @@ NObsMatch(x, ob, cells) ==
   /\ ob.n = NLen(x) /\ ob.em = (NLen(x) = 0)
   /\ ob.rng = ShapeOf(x)                                \* get_index_range()
   /\ ob.reg = Regular(x)
+  /\ ob.contig = ContigObs(ob.t)                        \* is_contiguous() after every operation
   /\ LET s == SumSeq(Flat(x)) IN s # U => ob.sum = s
 
 NEqVal(st) ==
@@ -321,7 +339,7 @@ NStepOK(D, pre, op, res, err, post) ==
       loose == r.reshaped /\ (op.t = 1 \/ op.k \in {"NMove", "NSwap"})
   IN /\ NEnabled(D, st, op)
      /\ err = r.err
-     /\ (op.k \in {"NIterAll", "NGetAt"} /\ ~err) => SeqMatch(r.res, res)
+     /\ (op.k \in {"NIterAll", "NGetAt", "NCopyTo", "NWriteData", "NFullPtr"} /\ ~err) => SeqMatch(r.res, res)
      /\ NObsMatch(r.st.s[1], post.s[1], ~loose \/ op.k = "NView")
      /\ NObsMatch(r.st.s[2], post.s[2], FALSE)
      /\ NStateOK(post)
@@ -329,7 +347,7 @@ NStepOK(D, pre, op, res, err, post) ==
      /\ LET e == NEqVal(r.st) IN (e = "T" => post.eq) /\ (e = "F" => ~post.eq)
      \* contiguity: a freshly constructed array (owning or viewing) with elements in every sub-array
      \* is one contiguous block
-     /\ (op.k \in {"NConstruct", "NView"} /\ NoEmptyR(op.R)) => ("contig" \in DOMAIN post /\ post.contig)
+     /\ (op.k \in {"NConstruct", "NView"} /\ NoEmptyR(op.R)) => post.s[op.t].contig
 
 (***************************************************************************)
 (* signatures of the known findings (known_findings.jsonl)                  *)
